@@ -11,7 +11,7 @@
    Matrix right-hand sides (trsm instead of trsv, column by column / row by row through the transposition of solve(B,right))
    compute the same values in exact arithmetic; tools/c02.py applies the vector model to every column (row). *)
 From Coq Require Import List Arith Bool.
-From SharkV Require Import C02Model C02BlkModel C02PstrfModel.
+From SharkV Require Import C02Model C02BlkModel C02PstrfModel C02RlModel.
 Import ListNotations.
 
 Section Semi.
@@ -36,7 +36,7 @@ Definition semi_decompose (psbs bs tbs : nat) (o : orient) (n : nat) (epsm : A) 
   | (r, L, P, piv) =>
     if Nat.eqb r n then Some (mkSemi r L P L piv)          (* m_cholesky stays empty; not used *)
     else
-      match potrf_blocked A F bs tbs false o r (semi_gram n r L) with
+      match potrf_blocked2 A F bs tbs false o r (semi_gram n r L) with
       | BOk _ Lc => Some (mkSemi r L P Lc piv)
       | BFail _ _ Lc => Some (mkSemi r L P Lc piv)           (* potrf's return value is ignored by decompose *)
       | BExc _ => None                                     (* exception out of trsm inside potrf *)
